@@ -95,6 +95,29 @@ def ast_features(ast):
                 tags.add("closure.params")
             if k == "doc" and "\n" in n.get("sv", ""):
                 tags.add("doc.multiline")
+            # value classes that GenSyntax showed to matter to the printer
+            if k == "doc" and "\\" in n.get("sv", ""):
+                tags.add("doc.backslash")
+            if k == "lit" and n.get("lk") == "bytes" and (34 in n.get("bytes", []) or 92 in n.get("bytes", [])):
+                tags.add("lit.bytes.quote-or-backslash")
+            if k == "fstr":
+                for p in n.get("parts", []):
+                    if p.get("pk") == "lit" and '"' in p.get("sv", ""):
+                        tags.add("fstr.literal-dquote")
+                    if p.get("pk") == "lit" and any(c in p.get("sv", "") for c in "\n\t\r\\"):
+                        tags.add("fstr.literal-escape")
+                    if p.get("pk") == "expr" and p.get("e", {}).get("k") == "closure":
+                        tags.add("fstr.hole-closure")
+            if k == "pctor" and not n.get("pats") and "::" not in n.get("name", ""):
+                tags.add("pctor.empty-unqualified")
+            if k in ("fassign", "iassign") and n.get("e", {}).get("k") == "bin":
+                # `t = t <op> <operator expression>`: the tree a compound assignment on a field / element target denotes
+                tgt = {"k": "fieldx", "obj": n.get("obj"), "field": n.get("field")} if k == "fassign" else {"k": "index", "obj": n.get("obj"), "idx": n.get("idx")}
+                rk = n["e"].get("r", {})
+                if n["e"].get("l") == tgt and rk.get("k") in ("bin", "range"):
+                    tags.add("target.self-op-operator-rhs")
+                if n["e"].get("l") == tgt and rk.get("k") == "un" and rk.get("op") == "not":
+                    tags.add("target.self-op-not-rhs")
         for v in n.values():
             walk(v, n)
     walk(ast)
